@@ -101,3 +101,15 @@ package types
 //@   invariant 0 <= \i && \i <= len(avp.VestingPools) && !result.IsNil()
 //@   invariant result == sumGenStoreOf(\o) + sumGenRowOf(avp.Owner, \i)
 //@   invariant storeAmountsSane() ==> abs(result) <= \o * 3e66 + \i * 3e60
+
+//@ // ---- C07 / C20: what the move-by-denominations validation establishes ----
+//@ pred distinctStrings(s) = forall i: int, j: int :: {s[i], s[j]} 0 <= i && i < j && j < len(s) ==> s[i] != s[j]
+//@ pred denomsAccepted(s, n) = forall k: int :: {s[k]} 0 <= k && k < n ==> validDenom(s[k]) && len(s[k]) != 0
+//@ func ValidateMsgMoveAvailableVestingByDenom(fromAddress, toAddress, denoms) (fromAcc, toAcc, err)
+//@   ensures err == nil ==> bech32ok(fromAddress) && bech32ok(toAddress) && fromAcc == fromBech32(fromAddress) && toAcc == fromBech32(toAddress)
+//@   ensures [denoms] err == nil ==> len(denoms) > 0 && distinctStrings(denoms) && denomsAccepted(denoms, len(denoms))
+//@   prop C07 C20
+//@ loop ValidateMsgMoveAvailableVestingByDenom#1
+//@   invariant 0 <= \i && \i <= len(denoms) && arr(seenDenoms) != 0 && denomsAccepted(denoms, \i)
+//@   invariant forall k: int :: {denoms[k]} 0 <= k && k < \i ==> hasKey(seenDenoms, denoms[k]) && seenDenoms[denoms[k]]
+//@   invariant forall i: int, j: int :: {denoms[i], denoms[j]} 0 <= i && i < j && j < \i ==> denoms[i] != denoms[j]
